@@ -62,7 +62,7 @@ void flush_out()
     size_t off = 0;
     while (off < shm->out_len) {
         ssize_t w = ::write(1, shm->out + off, shm->out_len - off);
-        if (w <= 0) { _exit(3); }
+        if (w <= 0) { vh_exit(3); }
         off += (size_t)w;
     }
     shm->out_len = 0;
@@ -584,7 +584,7 @@ void child_dispatch(Job const& job, long rec0, long call0)
     else if (job.type == "char16_t") { child_main<char16_t>(job, rec0, call0); }
     else {
         std::fprintf(stderr, "unknown char type %s\n", job.type.c_str());
-        _exit(2);
+        vh_exit(2);
     }
 }
 
@@ -642,7 +642,7 @@ int main(int argc, char** argv)
                 if (fd >= 0) { dup2(fd, 2); }
             }
             child_dispatch(job, rec0, call0);
-            _exit(0);
+            vh_exit(0);
         }
         int st = 0;
         if (waitpid(pid, &st, 0) < 0) {
